@@ -515,11 +515,13 @@ theorem step_doRegister (st : St) (k : Int) (reg : St → St × Nat) (h : ∀ s,
     · exact (g2_emit _ _).step
     · exact (h st).trans (g2_with_slots _ _).step
 
+theorem g2_with_cancelReq (st : St) (l : List Int) : G2 st { st with cancelReq := l } := G2.of_eq rfl rfl
+
 theorem step_doCancel (st : St) (k : Int) : SigStep st (doCancel st k) := by
   unfold doCancel
   split
   · exact (g2_emit _ _).step
-  · exact step_watchCancel _ _
+  · exact (g2_with_cancelReq _ _).step.trans (step_watchCancel _ _)
 
 theorem g2_with_sigchldwatch (st : St) (x : Option Nat) : G2 st { st with sigchldwatch := x } := G2.of_eq rfl rfl
 
